@@ -60,6 +60,17 @@ Theorem dep_sorted_spec :
 Proof. exact Proofs.C33.dep_sorted_spec. Qed.
 Print Assumptions dep_sorted_spec.
 
+(* ... uniquely: any list sorted by reveal block whose per-block sub-lists are those of the
+   wallet's events IS the reveal order used *)
+Theorem dep_sorted_unique :
+  forall wallet evs s,
+    StronglySorted (fun a b => de_block a <= de_block b) s ->
+    (forall b, filter (fun e => de_block e =? b) s
+               = filter (fun e => de_block e =? b) (filter (dep_visible wallet) evs)) ->
+    s = dep_sorted wallet evs.
+Proof. exact Proofs.C33.dep_sorted_unique. Qed.
+Print Assumptions dep_sorted_unique.
+
 (* "eligible": the request is readable, old enough (RevealedAt + minAge < now), not swept (when
    swept ones are skipped), funding transaction confirmed often enough (when required) *)
 Theorem dep_eligible_iff :
